@@ -17,6 +17,7 @@
 -/
 import MdProofs.Lemmas.EncodeWhole
 import MdProofs.Lemmas.EncodeMemory
+import MdProofs.Lemmas.EncodeIds
 namespace MdModel.Encode
 open MdModel MdModel.Dump MdModel.Gen.Layouts MdModel.Gen.LayoutsC02
 
@@ -352,5 +353,90 @@ theorem endian_agnostic_partial {m : DumpModel} {f : MemForm} (wf : WellFormed m
   obtain ⟨rl, h1, h2, h3, h4, h5, h6⟩ := decode_encode_partial wf .little
   obtain ⟨rb, g1, g2, g3, g4, g5, g6⟩ := decode_encode_partial wf .big
   exact ⟨rl, rb, h1, g1, h2, g2, by rw [h3, g3], by rw [h4, g4]; rfl, by rw [h5, g5]; rfl, by rw [h6, g6]; rfl⟩
+
+/-! ## 6. "debug/code identifiers equal to the documented derivation from the CodeView record" -/
+
+/-- the GUID a 16-byte (zero-padded / truncated) ELF build id stands for, as UUID bytes: read in
+    the dump's byte order — little-endian swaps the first three fields (the Breakpad convention),
+    big-endian keeps the bytes -/
+def elfUuid (e : Endian) (g : List UInt8) : List UInt8 :=
+  match e with
+  | .big => g.take 4 ++ (g.drop 4).take 2 ++ (g.drop 6).take 2 ++ g.drop 8
+  | .little => (g.take 4).reverse ++ ((g.drop 4).take 2).reverse ++ ((g.drop 6).take 2).reverse ++ g.drop 8
+
+/-- **C02.6 `ids_as_documented`** — the model of `read_debug_id` / `code_identifier` (which goes
+    through `Uuid::from_fields`, `DebugId::from_parts/from_pdb20`, `.breakpad()`, `CodeId::new`) produces
+    exactly the documented strings, for ALL values:
+    * PDB 7.0: GUID as `{:08X}{:04X}{:04X}` of data1..3, the 8 bytes of data4 in upper-case hex, then
+      the age in lower-case hex without padding (absent for the nil GUID);
+    * PDB 2.0: the signature as 8 upper-case hex digits, then the age;
+    * ELF: absent for an all-zero (or empty) build id; else the build id padded with zeros / truncated
+      to 16 bytes, read as a GUID in the dump's byte order, age 0; the code id is the whole build id in
+      lower-case hex;
+    * PE code id: `{:08x}{:x}` of time stamp and image size (lower-cased by `CodeId::new`); on macOS/iOS
+      the GUID; on Windows also without a CodeView record. -/
+theorem ids_as_documented :
+    (∀ e d1 d2 d3 d4 age file, allZero (uuidFromFields d1 d2 d3 d4) = false →
+      debugId e (.pdb70 d1 d2 d3 d4 age file) =
+        some (String.ofList (hexPad hexDigitUpper 8 d1 ++ hexPad hexDigitUpper 4 d2 ++ hexPad hexDigitUpper 4 d3 ++
+          hexBytes hexDigitUpper d4 ++ hexMin hexDigitLower age))) ∧
+    (∀ e d1 d2 d3 d4 age file, allZero (uuidFromFields d1 d2 d3 d4) = true →
+      debugId e (.pdb70 d1 d2 d3 d4 age file) = none) ∧
+    (∀ e off sig age file, debugId e (.pdb20 off sig age file) =
+        some (String.ofList (hexPad hexDigitUpper 8 sig ++ hexMin hexDigitLower age))) ∧
+    (∀ e bid, allZero bid = true → debugId e (.elf bid) = none ∧ ∀ os m, m.cv = some (.elf bid) → codeId os m = none) ∧
+    (∀ e bid, allZero bid = false →
+      debugId e (.elf bid) = some (String.ofList
+        (hexBytes hexDigitUpper (elfUuid e ((bid ++ List.replicate (16 - bid.length) 0).take 16)) ++ ['0']))) ∧
+    (∀ os m bid, m.cv = some (.elf bid) → allZero bid = false →
+      codeId os m = some (String.ofList (hexBytes hexDigitLower bid))) ∧
+    (∀ m, m.cv = none → codeId .windows m = some (timeSizeId m.time m.size) ∧ codeId .linux m = none) := by
+  refine ⟨?_, ?_, ?_, ?_, ?_, ?_, ?_⟩
+  · intro e d1 d2 d3 d4 age file h
+    simp only [debugId, h, Bool.false_eq_true, if_false, breakpadId]
+    simp only [uuidFromFields, hexBytes_append, hexBytes_encNat_big, List.append_assoc]
+  · intro e d1 d2 d3 d4 age file h
+    simp [debugId, h]
+  · intro e off sig age file; rfl
+  · intro e bid h
+    refine ⟨by simp [debugId, h], ?_⟩
+    intro os m hm
+    simp [codeId, hm, h]
+  · intro e bid h
+    simp only [debugId, h, Bool.false_eq_true, if_false, breakpadId, uuidFromFields, hexBytes_append]
+    have hmin : hexMin hexDigitLower 0 = ['0'] := by decide
+    rw [hmin]
+    -- the three numeric fields, written big-endian again, are the bytes (BE) or the reversed bytes (LE)
+    generalize hg : (bid ++ List.replicate (16 - bid.length) 0).take 16 = g
+    have hlen : g.length = 16 := by rw [← hg]; simp; omega
+    have l4 : (g.take 4).length = 4 := by simp [hlen]
+    have l2 : ((g.drop 4).take 2).length = 2 := by simp [hlen]
+    have l2' : ((g.drop 6).take 2).length = 2 := by simp [hlen]
+    cases e with
+    | big =>
+      have a := encNat_big_decodeNat_big (g.take 4)
+      have b := encNat_big_decodeNat_big ((g.drop 4).take 2)
+      have c := encNat_big_decodeNat_big ((g.drop 6).take 2)
+      rw [l4] at a; rw [l2] at b; rw [l2'] at c
+      simp only [a, b, c, elfUuid, hexBytes_append, List.append_assoc]
+    | little =>
+      have a := encNat_big_decodeNat_little (g.take 4)
+      have b := encNat_big_decodeNat_little ((g.drop 4).take 2)
+      have c := encNat_big_decodeNat_little ((g.drop 6).take 2)
+      rw [l4] at a; rw [l2] at b; rw [l2'] at c
+      simp only [a, b, c, elfUuid, hexBytes_append, List.append_assoc]
+  · intro os m bid hm h
+    simp [codeId, hm, h]
+  · intro m hm
+    simp [codeId, hm]
+
+/-- a concrete instance (the Breakpad example): a PDB 7.0 record and a 20-byte ELF build id in both
+    byte orders -/
+example : debugId .little (.pdb70 0xABCD1234 0xF00D 0xBEEF [1, 2, 3, 4, 5, 6, 7, 8] 1 []) =
+    some "ABCD1234F00DBEEF01020304050607081" := by decide
+example : debugId .little (.elf [1, 2, 3, 4, 5, 6, 7, 8, 9, 10, 11, 12, 13, 14, 15, 16, 17, 18, 19, 20]) =
+      some "0403020106050807090A0B0C0D0E0F100" ∧
+    debugId .big (.elf [1, 2, 3, 4, 5, 6, 7, 8, 9, 10, 11, 12, 13, 14, 15, 16, 17, 18, 19, 20]) =
+      some "0102030405060708090A0B0C0D0E0F100" := by decide
 
 end MdModel.Encode
